@@ -312,7 +312,97 @@ def h_labels(rp):
     return out
 
 
-HANDLERS = [("ctparse._get_labels", h_labels), ("ctparse.ctparse[", h_ctparse), ("regex[", h_reglan),
+def _virtual_clock_run(text, expire_after, scorer_mode="nb", timeout=1000.0, count=False, max_stack_depth=0):
+    """run ctparse_gen under a virtual clock: perf_counter never advances until it has been read
+    `expire_after` times (None: never), then jumps past the deadline"""
+    import importlib
+    from datetime import datetime
+    C = importlib.import_module("ctparse.ctparse")
+    T = importlib.import_module("ctparse.timers")
+    PP = importlib.import_module("ctparse.partial_parse")
+    from ctparse.scorer import Scorer
+    reads, work, nseq = [], [0], [0]
+
+    def fake():
+        reads.append(work[0])
+        if expire_after is not None and len(reads) > expire_after:
+            return 1e9
+        return 0.0
+    base = C._DEFAULT_SCORER
+
+    class S(Scorer):
+        def score(self, *a):
+            work[0] += 1
+            return base.score(*a)
+
+        def score_final(self, *a):
+            work[0] += 1
+            return base.score_final(*a)
+    oa, of = PP.PartialParse.apply_rule, PP.PartialParse.from_regex_matches
+
+    def ar(self, *a, **k):
+        work[0] += 1
+        return oa(self, *a, **k)
+
+    def fr(cls, *a, **k):
+        work[0] += 1
+        nseq[0] += 1
+        return of.__func__(cls, *a, **k)
+    orig = T.perf_counter
+    T.perf_counter = fake
+    PP.PartialParse.apply_rule = ar
+    PP.PartialParse.from_regex_matches = classmethod(fr)
+    try:
+        out = list(C.ctparse_gen(text, datetime(2018, 3, 7, 12, 43), timeout=timeout, max_stack_depth=max_stack_depth,
+                                 scorer=S(), latent_time=False))
+        exc = None
+    except Exception as e:
+        out, exc = [], e
+    finally:
+        T.perf_counter = orig
+        PP.PartialParse.apply_rule = oa
+        PP.PartialParse.from_regex_matches = of
+    pts = reads + [work[0]]
+    gaps = [b - a for a, b in zip(pts, pts[1:])]
+    return {"out": out, "exc": exc, "maxgap": max(gaps) if gaps else 0, "nseq": nseq[0], "reads": len(reads)}
+
+
+def h_deadline(rp):
+    out = {"func": rp["func"], "clause": rp["clause"]}
+    kind = (rp.get("args") or {}).get("kind")
+    if kind == "work-growth":
+        rows = []
+        for n in (3, 4, 5):
+            r = _virtual_clock_run(" ".join(["1"] * n), None)
+            rows.append({"tokens": n, "candidate_sequences": r["nseq"], "max_work_between_two_checks": r["maxgap"]})
+        out["virtual_clock"] = rows
+        out["confirmed"] = rows[-1]["max_work_between_two_checks"] * 2 >= rows[-1]["candidate_sequences"]
+        return out
+    if kind == "prefix":
+        bad = []
+        for text in ("tomorrow 8pm", "monday or tuesday 9-5", "1 1 1"):
+            full = _virtual_clock_run(text, None, timeout=0)
+            ref = [(repr(p.resolution), p.production, p.score) if p is not None else None for p in full["out"]]
+            nreads = _virtual_clock_run(text, None)["reads"]
+            for k in range(1, min(nreads, 60) + 1):
+                r = _virtual_clock_run(text, k)
+                got = [(repr(p.resolution), p.production, p.score) if p is not None else None for p in r["out"]]
+                if r["exc"] is not None:
+                    bad.append({"text": text, "deadline_after_reads": k, "raises": repr(r["exc"])})
+                elif got != ref[:len(got)]:
+                    bad.append({"text": text, "deadline_after_reads": k, "not_a_prefix": repr(got[-1])[:200]})
+                if len(bad) >= 3:
+                    break
+            if len(bad) >= 3:
+                break
+        out["violations"] = bad
+        out["confirmed"] = bool(bad)
+        return out
+    out["confirmed"] = False
+    return out
+
+
+HANDLERS = [("ctparse._ctparse", h_deadline), ("ctparse._regex_stack", h_deadline), ("ctparse._get_labels", h_labels), ("ctparse.ctparse[", h_ctparse), ("regex[", h_reglan),
             ("types.Artifact.__eq__", h_eq), ("corpus.parse_nb_string.nb_str", h_roundtrip),
             ("postprocess_latent.apply_postprocessing_rules", h_postprocess),
             ("types.Time.", h_accessor), ("types.Interval.", h_accessor),
